@@ -35,7 +35,7 @@ def build_sets(ctx):
             k = rng.randint(1, min(4, len(rc.variants(cat))))
             maps[cat] = rc.gen_map(rng, cat, rng.sample(rc.variants(cat), k), maxfiles=3)
         sets.append(rc.mk_case('all', maps, 'all:random'))
-    return [s for s in rc.corpus_cases('C13') + rc.corpus_cases('C12') + sets if s['wf']]
+    return [s for s in rc.corpus_cases('C13') + rc.corpus_cases('C12') + sets + rc.big_cases(rng)[:5] if s['wf']]
 
 
 def renders(ctx, base, rng, n_orders, same_order_procs=2):
@@ -65,7 +65,7 @@ SOL = {
     # several never-written memory parameters declared on different lines (a detector that picks "one" of them from a hash
     # map reports a different line in every process)
     'D.sol': 'pragma solidity ^0.8.0;\ncontract D {\n    function f(\n        uint256[] memory a,\n        string memory b,\n        bytes memory c\n    ) public pure returns (uint256) {\n'
-             '        return a.length;\n    }\n    function g(\n        uint8[] memory p,\n        uint8[] memory q\n    ) external pure returns (uint256) {\n        return p.length + q.length;\n    }\n}\n',
+             '        return a.length +\n            uint256(7) * 3 +\n            a.length / 3;\n    }\n    function g(\n        uint8[] memory p,\n        uint8[] memory q\n    ) external pure returns (uint256) {\n        return p.length + q.length;\n    }\n}\n',
 }
 # every source is padded with line feeds to one common length: files of exactly the same size and different line layouts
 # meet at the same listing index of different directories (whatever is remembered per (file number, size) must not leak)
